@@ -214,6 +214,45 @@ def run(ctx):
             ctx.check(ok and not tmpl, "R07.8", wf[0], "assignment-selects:" + text,
                       "`%s` runs %s instead of the %s assignment operator: ordinary assignments are rerouted through an overload that need not yield an equal container (capacity, contents)"
                       % (text, g.id[:120], w.replace("_", " ")), (wf[0], ln), why_ok=short(g.qual) + "(" + pt + ")")
+    # ---- R07.11: which constructor builds the temporary inside the assignment operators - in EVERY instantiation, also for an element type
+    # that converts from anything (braces prefer the initializer_list constructor whenever the braced things convert to the element type)
+    ctx.rule("R07.11", "in every instantiation of the three assignment operators a temporary container is built by the copy constructor / the move constructor / the (capacity, list) constructor - "
+                       "never by the initializer_list<value_type> constructor from the whole source")
+    ntmp = 0
+    for f in sorted(prog.fns.values(), key=lambda g: g.id):
+        if not (f.cls or "").startswith(FV + "<") or f.op != "=" or not f.has_cfg or f.is_pattern or not f.params:
+            continue
+        kind = "copy" if f.flags.get("copy_assign") else ("move" if f.flags.get("move_assign") else ("list" if "initializer_list" in (f.params[0].get("type") or "") else None))
+        if kind is None:
+            continue
+        for _, _, e in f.roots():
+            x = e["expr"]
+            if x.get("k") != "decl":
+                continue
+            for v in x.get("vars", []):
+                if "fixed_vector" not in (v.get("type") or ""):
+                    continue
+                init = ir.unwrap(v.get("init")) if v.get("init") is not None else None
+                while isinstance(init, dict) and init.get("k") == "cast":
+                    init = ir.unwrap(init["e"])
+                if not (isinstance(init, dict) and init.get("k") == "construct"):
+                    continue
+                c = prog.fn(init.get("ctor")) if init.get("ctor") else None
+                ntmp += 1
+                if c is None:
+                    ctx.broken("R07.11", f, "temporary-built-by:%s:%s" % (kind, f.flags.get("template_args", f.cls)), "the constructor selected for `%s` is not in the facts" % v["name"], (f, e.get("ln")))
+                    continue
+                pts = [(p0.get("type") or "") for p0 in c.params]
+                if kind == "copy":
+                    ok = bool(c.flags.get("copy_ctor"))
+                elif kind == "move":
+                    ok = bool(c.flags.get("move_ctor"))
+                else:
+                    ok = len(pts) == 2 and "initializer_list" in pts[1] and "initializer_list" not in pts[0]
+                ctx.check(ok, "R07.11", f, "temporary-built-by:%s:%s" % (kind, (f.cls or "")[len(FV):]),
+                          "in %s the temporary `%s` is built by %s - for this element type the braces select the initializer_list constructor: the assigned container holds the source "
+                          "(or the list's size and the list) as elements instead of the source's elements" % (f.id[:110], v["name"], c.id[:130]), (f, e.get("ln")), why_ok=c.id[:90])
+    ctx.need("R07.11", "temporaries in the instantiated assignment operators", ntmp, 6)
     # ---- R07.6: emplace builds the element the way std containers do - direct-initialisation from the forwarded arguments.
     # List-initialisation prefers an initializer_list constructor: emplace_back(3, 'x') on strings would store "\x03x", not "xxx".
     ctx.rule("R07.6", "emplace/emplace_back construct the element by direct-initialisation T(args...); a range insert walks its source exactly once")
